@@ -27,7 +27,8 @@ LINK_ATTR = 0x20 | 0x400 | 0x8000 | ((0o120777) << 16)
 
 
 def gen_logical(rng, n=None):
-    n = n or rng.randrange(1, 8)
+    # byte boundaries of the bit vectors (8, 16, 24 entries) matter as much as small counts
+    n = n or rng.choice([1, 2, 3, 4, 5, 6, 7, 7, 8, 8, 9, 15, 16, 17, 24])
     names = arclib.gen_names(rng, n)
     members = []
     for nm in names:
